@@ -552,8 +552,8 @@ class SquashState:
         if self.squash:
             x = jnp.tanh(x)
             x = 0.5 * (x + 1.0) * (self.high - self.low) + self.low
-        else:
-            x = jnp.clip(x, self.low, self.high)
+        # Also clip the squashed value: at saturation, floating-point rounding of the affine map can exceed the bounds by one ulp.
+        x = jnp.clip(x, self.low, self.high)
         return x
 
     @property
